@@ -30,7 +30,8 @@ let c05_obs = function
 let () =
   register "c05_run" (function [flags; cmd; ex; zd; mon; moff; evs] ->
       let o = { o_drag = c05_flag flags 0; o_trace = c05_flag flags 1; o_zmodem = c05_flag flags 2;
-                o_osc52 = c05_flag flags 3; o_cmd = bytes_of_hex cmd; o_cmd_not_trz = c05_flag flags 4 } in
+                o_osc52 = c05_flag flags 3; o_cmd = bytes_of_hex cmd; o_cmd_not_trz = c05_flag flags 4;
+                o_fixed = true (* the current source: handleTrzsz closes an open stop prompt on return *) } in
       let zset = chunks_of zd in
       let obs = corr_run (c05_exists ex) (fun c -> List.mem c zset) (bytes_of_hex mon) (bytes_of_hex moff) o
           (c05_flag flags 5) (List.map c05_event (split_on ',' evs)) in
